@@ -389,6 +389,21 @@ func init() {
 			}
 			return true
 		})
-		writeBool(b, "c04_permanent_errors_are_conflict_and_partial", strings.Join(subs, "|") == "\"field type conflict\"|\"partial write\"")
+		// ... and nothing else decides: nil -> false; the two substrings -> false; otherwise true
+		// (exactly three top-level statements, three returns, no other test of the error text)
+		nret, ncall := 0, 0
+		ast.Inspect(ir, func(n ast.Node) bool {
+			switch x := n.(type) {
+			case *ast.ReturnStmt:
+				nret++
+			case *ast.CallExpr:
+				if f := c17ExprString(x.Fun); f != "strings.Contains" && f != "err.Error" {
+					ncall++
+				}
+			}
+			return true
+		})
+		shape := ir.Body != nil && len(ir.Body.List) == 3 && nret == 3 && ncall == 0
+		writeBool(b, "c04_permanent_errors_are_conflict_and_partial", shape && strings.Join(subs, "|") == "\"field type conflict\"|\"partial write\"")
 	})
 }
